@@ -10,12 +10,7 @@ use vstd::std_specs::cmp::OrdSpec;
 use core::cmp::Ordering;
 verus! {
 
-/// std::cmp::max returns the second argument unless the first compares greater; min the first unless it compares greater
-pub assume_specification<T: Ord + core::marker::Destruct>[ core::cmp::max ](a: T, b: T) -> (r: T)
-    ensures r == (if a.cmp_spec(&b) == Ordering::Greater { a } else { b });
-pub assume_specification<T: Ord + core::marker::Destruct>[ core::cmp::min ](a: T, b: T) -> (r: T)
-    ensures r == (if a.cmp_spec(&b) == Ordering::Greater { b } else { a });
-
+//#include ../_shared/cmp_shims.inc.rs
 //#include ../_shared/str_axioms.inc.rs
 //#include ../_shared/attr_specs.inc.rs
 //#use-contract tracker_geom ../_shared/attribution.inc.rs
